@@ -322,7 +322,7 @@ func init() {
 	specs["C12"] = net("C12", 2400, 200000, "one case = one simulated server lifetime under a drawn DHCPv6 chain with 2..30 datagrams: message type 0..255 (biased to the defined ones), with/without client id and Rapid Commit, Server Identifier none/own/other, relay depth 0..4 with drawn per-layer link/peer addresses, Interface-ID, Remote-ID and extra options, wire-only shapes (outer Relay-Reply, Relay-Forward without relay-message option, truncation, bit flips), source global or link-local, listeners bound/unbound, receiving interface 2..4, duplicates in flight; every captured reply is attributed to its handler task; distinct = distinct (context-switch hash, reply-sequence hash); non-trivial = at least 2 datagrams delivered", "wire6")
 	specs["C14"] = net("C14", 2400, 200000, "one case = one simulated server lifetime with server_id configured for both protocols (every accepted argument spelling) and 2..30 messages: all DHCPv6 client message types x Server Identifier {none, own, other: every DUID kind, other kind over the same address, equal prefix longer/shorter, different time/hwtype} x relay depth 0..4; DHCPv4 DISCOVER/REQUEST x siaddr {absent, zero, own, other} x option 54 {absent, zero, own, other}; distinct = distinct (context-switch hash, reply-sequence hash); non-trivial = at least 2 datagrams delivered", "serverid")
 	specs["C10"] = net("C10", 2400, 200000, "one case = one simulated server lifetime with the file plugin for DHCPv4, DHCPv6 (or both, switch-gated) on an in-memory file system: a lease file drawn from the grammar (every MAC/IP spelling, comments, blank lines, duplicates, at most one malformation), 2..16 requests from listed and unlisted clients (DHCPv6 with/without IA_NA, MAC from DUID or relay peer address) interleaved, under autorefresh, with 1..6 operator updates performed syscall by syscall (in-place rewrite in 1..4 chunks with torn reads, append, rename-over, unlink+recreate, move-away) producing the inotify events of the calibrated model with coalescing, and injected read errors; the reference model is driven by what the plugin actually read; distinct = distinct (context-switch hash, reply-sequence hash); non-trivial = at least 2 datagrams delivered or a rejected start-up", "static")
-	c16 := net("C16", 1200, 120000, "one case = one simulated server lifetime on the -race build with 2..40 datagrams in flight through lease4 (range+sqlite), pd6 (prefix), static (file with refresh events in flight) and mixed full chains, every scheduler policy, receive buffers recycled with maximal reuse and poisoned on Put; three monitors: the Go race detector (schedule-independent thanks to the annotation-free baton), porcupine over the datagram history against the sequential lease model, and the C02/C08/C09/C10 oracles under statement-level preemption; distinct = distinct (context-switch hash, reply-sequence hash); non-trivial = at least 2 datagrams delivered", "lease4", "pd6", "static", "mixed", "lease4", "pd6", "wire4", "wire6")
+	c16 := net("C16", 1200, 40000, "one case = one simulated server lifetime on the -race build with 2..40 datagrams in flight through lease4 (range+sqlite), pd6 (prefix), static (file with refresh events in flight) and mixed full chains, every scheduler policy, receive buffers recycled with maximal reuse and poisoned on Put; three monitors: the Go race detector (schedule-independent thanks to the annotation-free baton), porcupine over the datagram history against the sequential lease model, and the C02/C08/C09/C10 oracles under statement-level preemption; distinct = distinct (context-switch hash, reply-sequence hash); non-trivial = at least 2 datagrams delivered", "lease4", "pd6", "static", "mixed", "lease4", "pd6", "wire4", "wire6")
 	c16.RaceQuick, c16.RaceThor, c16.KnownPct = true, true, 0
 	c16.Assume = append(c16.Assume, "the Go race detector's bounded shadow history (a race whose first access was evicted is missed; mitigated by many short runs)", "porcupine v1.3.0")
 	specs["C16"] = c16
